@@ -6,6 +6,9 @@
 //!   rendered after a `.` / normal component or after the `{SBX}` prefix;
 //! * the number of `..` components of a name is capped at NEST (12);
 //! * the tail of an absolute name never climbs above `{SBX}`.
+//!
+//! These rules cover a name that is used whole.  Code that uses only a part of a name (a suffix
+//! after some separator can be absolute) is contained by the Landlock confinement in `confine.rs`.
 
 use crate::case::{Arc, Case, Ent, Lf, OutMode};
 use crate::names::{self, NEST, SBX};
